@@ -70,7 +70,7 @@ package engine
 //@   let sid       = uf_s_peek(ctx.query, "sid", ctx.query.$bagver)
 //@   let origin    = uf_s_peek(ctx.headers, "Origin", old(ctx.headers.$bagver))
 //@   let tBad      = !maphas(bs.opts.Transports().cache, transport) || transport == "webtransport"
-//@   let oBad      = uf_b_invalidHeaderChar(origin)
+//@   let oBad      = invalidHeaderChar(origin)
 //@   let known     = uf_b_mapHas(bs.clients, sid, bs.clients.$mapver)
 //@   let hasSid    = len(sid) > 0
 //@   let prevName  = Socket(uf_i_mapVal(bs.clients, sid, bs.clients.$mapver)).Transport().Name()
